@@ -245,7 +245,12 @@ def pow_(a, e):
             a = X(a)
             nan = tm.or_(a.nan, a.ninf, tm.and_(a.finite, tm.lt(a.val, ZERO)))
             return XReal(tm.cbrt(tm.ite(tm.ge(a.val, ZERO), a.val, ZERO)), nan, a.pinf, FALSE)
-        raise cx.EngineUnsupported("fractional power in extended-real mode")
+        if ev > 0:
+            # torch.pow of a negative base with a non-integer exponent is NaN
+            a = X(a)
+            nan = tm.or_(a.nan, a.ninf, tm.and_(a.finite, tm.lt(a.val, ZERO)))
+            return XReal(tm.pow_(tm.ite(tm.ge(a.val, ZERO), a.val, ZERO), ev), nan, a.pinf, FALSE)
+        raise cx.EngineUnsupported("negative fractional power in extended-real mode")
     return cx.spow(_r(a), e_l)
 
 
